@@ -262,16 +262,26 @@ func c13Child(c *config) {
 		rounds = 50
 	}
 	const G = 8
-	for mi, mk := range c13Modules(c) {
+	seqPanics := 0 // (reported once; modules whose lone print panics are printed concurrently all the same)
+	// (the literal-built modules of c13lit.go take part here only: in the fine-grained section below nothing takes
+	// a lock before the first type query, which is not how printing performs that query)
+	for mi, mk := range append(c13Modules(c), c13LiteralModules(c)...) {
 		for _, state := range []string{"never_printed", "already_printed"} {
 			m := mk()
 			if m == nil {
 				continue
 			}
 			ref := mk()
-			want := ref.String() // the text a lone sequential call returns (on an identical, separate module)
+			var want string // the text a lone sequential call returns (on an identical, separate module)
+			if oc, msg := guard(func() error { want = ref.String(); return nil }); oc != ocOk {
+				// (the concurrent calls are then expected to end the same way)
+				want = "PANIC"
+				if seqPanics++; seqPanics == 1 {
+					o.Fail("concurrent_printing", "", "the lone sequential print of the module panics", map[string]interface{}{"module": mi, "state": state, "panic": msg})
+				}
+			}
 			if state == "already_printed" {
-				_ = m.String()
+				guard(func() error { _ = m.String(); return nil })
 			}
 			o.Stat("modules." + state)
 			o.Nontrivial(fmt.Sprintf("%d-%s", mi, state))
@@ -310,7 +320,10 @@ func c13Child(c *config) {
 						})
 						mu.Lock()
 						defer mu.Unlock()
-						if oc != ocOk && bad == "" {
+						if oc != ocOk && want == "PANIC" {
+							got = "PANIC"
+						}
+						if oc != ocOk && want != "PANIC" && bad == "" {
 							bad = "a concurrent print panics: " + msg
 						} else if got != want && bad == "" {
 							bad = "a concurrent print returns a different text"
@@ -471,5 +484,6 @@ func c13Child(c *config) {
 		wg.Wait()
 	}
 	o.Stat("kf47_scenarios")
+	c13LitSequential(o)
 	o.Sample(map[string]interface{}{"goroutines": G, "rounds": rounds})
 }
